@@ -15,7 +15,7 @@ func init() {
 		ID: "C08", Level: "fault_enumeration", QuickSec: 55, ThoroSec: 1200,
 		Rule: "each run = one seeded txops history (<=10 transactions, incl. reopen) with a fault plan aimed at the I/O calls a fault-free dry run of the same seed performs: kind in {write error before effect, short write then error, sync error, truncate error, size error, mmap error, read error at open} x call index x burst in {1,2,3,until end of transaction}; a fault-free configuration of every seed runs first with the strict oracle. Oracles: no panic, no hang (scheduler deadlock detection), after every transaction a fresh read transaction sees exactly the last successfully committed model state, a commit that reported success is durable (durable-only image reopens to it), a commit during which one of its writes/syncs failed does not report success, once faults stopped a write transaction commits within 2 attempts, and after clean close+reopen the state is the last committed one or the complete state of a later attempt whose header write was issued. Non-trivial = at least one fault actually fired inside a transaction or an open; distinct = op list + fault plan + config + schedule hash.",
 		Real: defaultReal, Stub: defaultStub, Assume: defaultAssume,
-		FaultKinds: []string{"write_err", "write_short", "sync_err", "truncate_err", "size_err", "mmap_err", "read_err"},
+		FaultKinds: []string{"write_err", "write_short", "sync_err", "truncate_err", "size_err", "mmap_err", "read_err", "unlock_err"},
 		Body: c08Body,
 	})
 }
@@ -57,12 +57,12 @@ func runHistory(e *Env, r *Runner, g *Gen, explicit []Op, ntx int, guardProp str
 	}
 }
 
-func drawFaults(rng *simsched.Rand, calls [7]int) []simdisk.Fault {
+func drawFaults(rng *simsched.Rand, calls [8]int) []simdisk.Fault {
 	n := 1 + rng.Intn(2)
 	var fs []simdisk.Fault
 	for i := 0; i < n; i++ {
-		kind := []simdisk.FaultKind{simdisk.FWriteErr, simdisk.FWriteErr, simdisk.FWriteShort, simdisk.FSyncErr, simdisk.FSyncErr, simdisk.FSyncErr, simdisk.FTruncErr, simdisk.FSizeErr, simdisk.FMMapErr}[rng.Intn(9)]
-		cls := map[simdisk.FaultKind]int{simdisk.FWriteErr: 0, simdisk.FWriteShort: 0, simdisk.FSyncErr: 1, simdisk.FTruncErr: 2, simdisk.FSizeErr: 3, simdisk.FMMapErr: 4}[kind]
+		kind := []simdisk.FaultKind{simdisk.FWriteErr, simdisk.FWriteErr, simdisk.FWriteShort, simdisk.FSyncErr, simdisk.FSyncErr, simdisk.FSyncErr, simdisk.FTruncErr, simdisk.FSizeErr, simdisk.FMMapErr, simdisk.FUnlockErr}[rng.Intn(10)]
+		cls := map[simdisk.FaultKind]int{simdisk.FWriteErr: 0, simdisk.FWriteShort: 0, simdisk.FSyncErr: 1, simdisk.FTruncErr: 2, simdisk.FSizeErr: 3, simdisk.FMMapErr: 4, simdisk.FUnlockErr: 7}[kind]
 		cnt := calls[cls]
 		if cnt == 0 {
 			cnt = 2
@@ -92,7 +92,7 @@ func c08Body(e *Env) {
 	}
 
 	// 1. fault-free dry run with the strict oracle
-	var calls [7]int
+	var calls [8]int
 	if c.Faults == nil && !c.Explicit {
 		d0 := e.NewDisk("dry")
 		r0 := NewRunner(e, d0, cfg)
@@ -254,10 +254,15 @@ func c08Body(e *Env) {
 	reopenRng := e.Rng("c08reopen")
 	reopen := func(final bool) {
 		var err error
-		e.Guard("C08", "File.Close", func() { err = r.F.Close() })
+		e.Guard("C08", "File.Close", func() { err = r.E.CloseFile(r.F) })
 		r.F = nil
 		if e.Failed() {
 			return
+		}
+		if d.Locked() {
+			// an injected Unlock failure left the (simulated) path lock behind;
+			// the lock of a real file goes away with the file descriptor
+			d.ForceUnlock()
 		}
 		if err != nil && !d.FaultsPending() && final {
 			e.Fail("C08", "close-error", "File.Close failed after all faults stopped: %v", err)
@@ -274,6 +279,9 @@ func c08Body(e *Env) {
 		newMax := 0
 		if r.Cfg.MaxSize > 0 && reopenRng.Intn(5) == 0 {
 			newMax = r.Cfg.MaxSize + 64<<10
+			if reopenRng.Intn(2) == 0 && r.Cfg.MaxSize >= 128<<10 {
+				newMax = r.Cfg.MaxSize / 2 / r.Cfg.PageSize * r.Cfg.PageSize // shrink: runs the release transaction
+			}
 			opts.Flags |= txfile.FlagUpdMaxSize
 			opts.MaxSize = uint64(newMax)
 			opts.InitMetaArea = 0
@@ -414,7 +422,7 @@ func c08Body(e *Env) {
 		live("after final reopen")
 	}
 	if r.F != nil {
-		r.F.Close()
+		r.E.CloseFile(r.F)
 		r.F = nil
 	}
 	h := sigOf(r, uint64(cfg.PageSize), uint64(cfg.MaxSize))
